@@ -4,10 +4,12 @@ use bstr::{ByteSlice, ByteVec};
 
 /// The final component of the path, if it is a normal file.
 ///
-/// If the path terminates in `.`, `..`, or consists solely of a root of
-/// prefix, file_name will return None.
+/// If the path is empty, file_name will return None. Otherwise, this returns
+/// everything after the last `/`, which may be empty (when the path ends
+/// with `/`) and may end with a `.` (for example `foo.`), since globs such as
+/// `foo.` or `*.` are expected to match such file names.
 pub(crate) fn file_name<'a>(path: &Cow<'a, [u8]>) -> Option<Cow<'a, [u8]>> {
-    if path.last_byte().map_or(true, |b| b == b'.') {
+    if path.is_empty() {
         return None;
     }
     let last_slash = path.rfind_byte(b'/').map(|i| i + 1).unwrap_or(0);
